@@ -96,6 +96,46 @@ theorem recursion_guard_trips (fuel fid idx : Nat) (args : List V) (σ : ES) (fr
     throw, throwThe, MonadExceptOf.throw, EStateM.throw]
   exact ⟨_, _, rfl, rfl, rfl⟩
 
+theorem getFrame_keeps_state (fid : Nat) (σ s : ES) (fr : Frame) (h : getFrame fid σ = .ok fr s) : s = σ := by
+  unfold getFrame at h
+  simp only [bind, EStateM.bind, get, getThe, MonadStateOf.get, EStateM.get] at h
+  cases hf : σ.frames.find? (·.id == fid) with
+  | none => rw [hf] at h; cases h
+  | some f => rw [hf] at h; cases h; rfl
+
+/-- **What a macro call returns.**  Whenever a call succeeds, its value is text marked safe —
+    already-escaped markup, whatever the body rendered — and the call had no more arguments than
+    the macro has parameters (otherwise it is the execution error "Macro called with too many
+    arguments", never a result). -/
+theorem macro_call_returns_safe_text (fuel fid idx : Nat) (args : List V) (σ σ' : ES) (r : V)
+    (h : (callMacro T cfg g fuel fid idx args).run σ = .ok r σ') :
+    r.safe = true ∧ (∃ out, r.v = .str out) ∧ args.length ≤ (σ.cs.macros[idx]!).params.length := by
+  cases fuel with
+  | zero => simp [callMacro, xerr, EStateM.run, throw, throwThe, MonadExceptOf.throw, EStateM.throw] at h
+  | succ n =>
+    simp only [callMacro, EStateM.run, bind, EStateM.bind, get, getThe, MonadStateOf.get, EStateM.get] at h
+    cases h1 : getFrame fid σ with
+    | error e s => rw [h1] at h; cases h
+    | ok defFrame s1 =>
+      have hs1 := getFrame_keeps_state fid σ s1 defFrame h1
+      subst hs1
+      rw [h1] at h
+      simp only [] at h
+      generalize withFrameView T cfg g n fid _ s1 = res2 at h
+      cases res2 with
+      | error e s => cases h
+      | ok defaults s2 =>
+        simp only [] at h
+        split at h
+        · cases h
+        · rename_i hle
+          simp only [EStateM.bind] at h
+          split at h
+          · simp only [pure, EStateM.pure] at h
+            cases h
+            exact ⟨rfl, ⟨_, rfl⟩, by omega⟩
+          · cases h
+
 /-- the depth limit is the code's constant -/
 theorem gen_maxMacroDepth : Gen.maxMacroDepth = maxMacroDepth := by decide
 
